@@ -490,12 +490,16 @@ impl Mp4Track {
 
             let first_sample_in_chunk = sample_id - (sample_id - first_sample) % samples_per_chunk;
 
-            let mut sample_offset = 0;
+            let mut sample_offset = 0u64;
             for i in first_sample_in_chunk..sample_id {
-                sample_offset += self.sample_size(i)?;
+                sample_offset += self.sample_size(i)? as u64;
             }
 
-            Ok(chunk_offset + sample_offset as u64)
+            chunk_offset
+                .checked_add(sample_offset)
+                .ok_or(Error::InvalidData(
+                    "attempt to calculate sample offset with overflow",
+                ))
         }
     }
 
